@@ -270,5 +270,22 @@ func apiSpecs() []*HarnessSpec {
 		Quick:    []Grid{{"skel": {0, 1, 2, 3, 4, 5, 6}, "opt": {16, 9}, "enc": {1}, "runs": {0, 2}, "check": {19}, "lq": {0}}},
 		Thorough: []Grid{{"skel": {0, 1, 2, 3, 4, 5, 6}, "opt": optsDistinct, "enc": {1, 3}, "runs": {0, 1, 2, 3}, "check": {19}, "lq": {0}}},
 		Note:     "String() on skeleton tries incl. short-node tables and a 257-bit root"})
+	// ---- C05 round trip / determinism / residue ----
+	out = append(out, &HarnessSpec{Name: "l2_api", Pkg: "trie", Property: "C05", Witness: 1,
+		Quick: []Grid{{"n": {0, 1}, "L": {2}, "lens": {0, 1, 2}, "opt": optsDistinct, "enc": {1, 0, 2}, "check": {5}, "lq": {0, 1, 2}, "cv": {-1}},
+			{"n": {2}, "L": {2}, "lens": rng(0, 8), "opt": optsFew, "enc": {1}, "check": {5}, "lq": {1, 2}, "cv": {-1}}},
+		Thorough: []Grid{{"n": {0, 1}, "L": {3}, "lens": {0, 1, 2, 3}, "opt": optsDistinct, "enc": {1, 0, 2}, "check": {5}, "lq": {0, 1, 2, 3}, "cv": {-1}},
+			{"n": {2}, "L": {2}, "lens": rng(0, 8), "opt": optsDistinct, "enc": {1, 0, 2}, "check": {5}, "lq": {0, 1, 2, 3}, "cv": {-1}},
+			{"n": {3}, "L": {2}, "lens": rng(0, 26), "opt": optsFew, "enc": {1}, "check": {5}, "lq": {1, 2}, "cv": {-1}}},
+		Note: "Unmarshal(Marshal(t)) answers Get/GetID/RangeGet/Search/scan/Stat identically for a symbolic query (codec stub, A-PB); re-marshal and second build give deep-equal messages under all map iteration orders; byte identity is asserted on the native replays only"})
+	out = append(out, &HarnessSpec{Name: "l3_api", Pkg: "trie", Property: "C05", Witness: 1,
+		Quick:    []Grid{{"skel": {0, 1, 2, 4, 5}, "opt": {16, 9}, "enc": {1}, "runs": {0, 2}, "check": {5}, "lq": {1, 2}}},
+		Thorough: []Grid{{"skel": {0, 1, 2, 3, 4, 5, 6}, "opt": optsDistinct, "enc": {1, 2}, "runs": {0, 2}, "check": {5}, "lq": {0, 1, 2, 3, 4}}},
+		Note:     "L3: round trip and determinism on skeleton tries (short-node tables with ties in the bitmap-frequency table)"})
+	out = append(out, &HarnessSpec{Name: "l2_residue", Pkg: "trie", Property: "C05", Witness: 1,
+		Quick: []Grid{{"L": {1}, "na": {2}, "lensa": {3}, "opta": {9}, "nb": {1}, "lensb": {1}, "optb": {16}, "nops": {2}, "seq": rng(0, 15), "lq": {1}},
+			{"L": {1}, "na": {1}, "lensa": {1}, "opta": {16}, "nb": {2}, "lensb": {3}, "optb": {9}, "nops": {3}, "seq": {1, 4, 6, 13, 19, 24, 33, 45, 52, 57}, "lq": {1}}},
+		Thorough: []Grid{{"L": {1}, "na": {2}, "lensa": {3}, "opta": {9, 16}, "nb": {1, 2}, "lensb": {1, 3}, "optb": {16, 2}, "nops": {3}, "seq": rng(0, 63), "lq": {1, 2}}},
+		Note: "all sequences over {Unmarshal(A), Unmarshal(B), Unmarshal(empty), Reset} on one instance: final answers, message and Stat equal a fresh instance that saw only the last operation"})
 	return out
 }
